@@ -81,6 +81,12 @@ deriving Inhabited
 
 /-! ### the writer walk -/
 
+/-- the `i`-th record of a list, if there is one -/
+def optRec {α} (k : Kind) (l : List α) (i : Nat) : List (Kind × Option α) :=
+  match l[i]? with
+  | some r => [(k, some r)]
+  | none => []
+
 /-- records in the order `Writer.Write` emits them; `none` is a nil pointer (rendered as "") -/
 def Item.flatten {α} (isCheck : Bool) (it : Item α) : List (Kind × Option α) :=
   [((if isCheck then Kind.checkDetail else Kind.returnDetail), some it.detail)] ++
@@ -89,9 +95,7 @@ def Item.flatten {α} (isCheck : Bool) (it : Item α) : List (Kind × Option α)
   it.addC.map (fun r => ((if isCheck then Kind.cdAddC else Kind.rdAddC), some r)) ++
   (if isCheck then [] else it.addD.map (fun r => (Kind.rdAddD, some r))) ++
   ((List.range it.ivDetail.length).flatMap (fun i =>
-    (match it.ivDetail[i]? with | some r => [(Kind.ivDetail, some r)] | none => []) ++
-    (match it.ivData[i]? with | some r => [(Kind.ivData, some r)] | none => []) ++
-    (match it.ivAnalysis[i]? with | some r => [(Kind.ivAnalysis, some r)] | none => [])))
+    optRec .ivDetail it.ivDetail i ++ optRec .ivData it.ivData i ++ optRec .ivAnalysis it.ivAnalysis i))
 
 /-- `writeImageView`'s precondition (else a BundleError is returned) -/
 def Item.imageCountsOK {α} (it : Item α) : Bool :=
